@@ -744,6 +744,33 @@ def annotate(text, annots):
             at = a["at"]
             if at == "body_start":
                 ins.append((ts[b].end, "\n" + a["text"].rstrip() + "\n", "ghost", order))
+            elif at == "match_arm_end":
+                # end of the block of the k-th arm of the n-th `match` of the body (arms with `{}` blocks only)
+                ms = [x for x in range(b + 1, e) if ts[x].kind == "ident" and ts[x].text == "match"]
+                n = a.get("match", 0)
+                if n >= len(ms):
+                    raise VxError("lost anchor: match ordinal %d, function has %d" % (n, len(ms)))
+                mb = next_body_brace(ts, ms[n] + 1, e)
+                me = match_close(ts, mb)
+                arms = []
+                x = mb + 1
+                while x < me:
+                    t = ts[x]
+                    if t.kind == "punct" and t.text in _OPEN:
+                        x = match_close(ts, x) + 1
+                        continue
+                    if t.text == "=>":
+                        if ts[x + 1].text == "{":
+                            ae = match_close(ts, x + 1)
+                            arms.append((x + 1, ae))
+                            x = ae + 1
+                            continue
+                        arms.append(None)
+                    x += 1
+                k = a.get("ordinal", 0)
+                if k >= len(arms) or arms[k] is None:
+                    raise VxError("lost anchor: match arm %d (of %d) has no block" % (k, len(arms)))
+                ins.append((_block_end_pos(ts, arms[k][0], arms[k][1]), "\n" + a["text"].rstrip() + "\n", "ghost", order))
             elif at == "if_branch_end":
                 # end of the then-block (branch 0) / else-block (branch 1) of the k-th `if` of the body
                 ifs = [x for x in range(b + 1, e) if ts[x].kind == "ident" and ts[x].text == "if"
